@@ -315,7 +315,7 @@ func main() {
 		ID: "C19", Model: "C19", Gen: gen, Impl: zcnw.Impl, Oracle: oracle, Serial: true,
 		Cases: func(th bool) int {
 			if th {
-				return 8000
+				return 6000
 			}
 			return 400
 		},
